@@ -183,6 +183,7 @@ func runC15(r *rep.Report, thorough bool) error {
 		return err
 	}
 	defer d.Close()
+	specEnums := map[string]*irdump.Env{}
 	for _, sp := range specs {
 		a := byID[sp.Case]
 		rec := recursiveTypes(a.Env)
@@ -256,6 +257,16 @@ func runC15(r *rep.Report, thorough bool) error {
 			judgeEnv := a.Env
 			if a.FirstEnv != nil {
 				judgeEnv = a.FirstEnv
+			}
+			// … with the constants of each enum as the specification model of the analysis lists
+			// them (from the go/types facts): an enum the analysis truncated is judged against
+			// its real constants
+			if je, ok := specEnums[sp.Case]; ok {
+				judgeEnv = je
+			} else {
+				je := withSpecEnums(d, a, judgeEnv)
+				specEnums[sp.Case] = je
+				judgeEnv = je
 			}
 			reply, err := d.Call(map[string]any{"op": "c15.judge", "env": judgeEnv, "type": map[string]any{"k": "ref", "q": q}, "values": vals})
 			if err != nil {
